@@ -224,6 +224,20 @@ def rule_xp_messages(cx, rep, port=None):
         (py.func('rbql_csv', 'CSVWriter.ensure_single_field'), js.func('rbql_csv', 'CSVWriter.mono_join'), 'monocolumn error', 'Monocolumn'),
     ]
     for a, b, label, must in pairs:
+        if label == 'field-count warning':
+            # both message builders evaluated on the same table: the texts must be equal
+            from .. import absexec as AX
+            texts = []
+            for port_, fd_ in (('py', a), ('js', b)):
+                try:
+                    runs, cut = AX.Explorer(cx.port(port_), 'rbql_csv', max_choices=1).explore(fd_, ['input', {3: 5, 4: 2, 7: 9}])
+                    v_ = runs[0].outcome[1] if (not cut and len(runs) == 1 and runs[0].outcome[0] == 'return') else None
+                    texts.append(v_ if isinstance(v_, str) else None)
+                except (Undecided, KeyError, IndexError, TypeError, AttributeError, ValueError):
+                    texts.append(None)
+            if None not in texts:
+                rep.decide(texts[0] == texts[1], label, b, 'same message in both ports: {}'.format(texts[0][:80]), 'field-count warning messages differ: python {!r} vs javascript {!r}'.format(texts[0], texts[1]))
+                continue
         oa = [t for t in _templates_in(a) if must is None or must in t]
         ob = [t for t in _templates_in(b) if must is None or must in t]
         ta, tb = sorted(oa), sorted(ob)
